@@ -103,6 +103,22 @@ theorem textfield_source_refines (cl : List A → List (List A)) (hs : VaxisMode
   refine ⟨_, _, tfStepI_eq cl hsane _ _, tfRunI_eq cl hsane ops _, ?_⟩
   exact VaxisModel.Props.C17.textfield_refines_clustered cl hs isWord start ops
 
+open VaxisModel.Lemmas.EditorCl (InvC absC absCallC meaningOfC) in
+open VaxisModel.Spec.Editor (callbacksC Callback) in
+/-- Callbacks of the interpreted source, for every `Segmentation`: on a state with `n = count`, `cursor ≤ count`,
+    `HandleEvent` as translated from the source calls `OnSubmit` exactly on Enter (with the line) and `OnChange`
+    exactly when the text changed (with the new text) — the ideal editor's callbacks, in order. -/
+theorem textfield_source_callbacks_exact (cl : List A → List (List A)) (hs : VaxisModel.Spec.Editor.Segmentation cl)
+    (isWord : List A → Bool) (tf : TextFieldCl.TF A) (ev : TextField.KeyEv A) (h : InvC cl tf) :
+    ∃ tf' log, tfHandleKey genTf cl tf ev = some (tf', log) ∧
+      log.map (fun kv => if kv.1 = "submit" then Callback.submit (cl kv.2) else Callback.change (cl kv.2)) =
+        callbacksC cl isWord (absC cl tf) (meaningOfC cl ev) := by
+  refine ⟨_, _, handleEvent_body_eq_model cl (clSane_of_seg cl hs) tf ev, ?_⟩
+  rw [← VaxisModel.Props.C17.textfield_callbacks_exact_clustered cl hs isWord tf ev h, List.map_map]
+  apply List.map_congr_left
+  intro c _
+  cases c <;> simp [callName, absCallC]
+
 /-! ### textinput.Model -/
 
 open VaxisModel.Lemmas.EdLangTIBody in
